@@ -135,3 +135,200 @@ def instances(tier):
                 continue
             out.append(_aff_instance(K, N, (), 'KN1', m, 0.0))
     return out
+
+
+# ============================================================================= P2: E-steps of the mixture models
+# Data-flow contracts: the component log-pdf and log_pdf_to_affiliation are replaced by recording stubs that return
+# fresh symbolic arrays.  Obligations: the posterior routine receives the stored weight (unsqueezed along exactly the
+# tied axes for the integration models), the component log-pdf of the (normalised) observation - for the integration
+# models the exponent-weighted sum of the two streams, element by element -, the mask and the eps; its result is
+# returned unchanged.
+from pbv import symnp as _symnp           # noqa: E402
+from pbv import scalar as _S              # noqa: E402
+TINY64 = float(np.finfo(np.float64).tiny)
+
+
+class _Rec:
+    def __init__(self):
+        self.calls = []
+
+
+def estep_instance(kind, F=2, K=2, T=2, D=2, Edim=2, wca=(-1,), s_w=None, p_w=None):
+    from pb_bss.distribution import cacgmm, gcacgmm, vmfcacgmm, cwmm, cbmm, gmm, vmfmm
+    mod = {'cacgmm': cacgmm, 'gcacgmm': gcacgmm, 'vmfcacgmm': vmfcacgmm, 'cwmm': cwmm, 'cbmm': cbmm, 'gmm': gmm, 'vmfmm': vmfmm}[kind]
+    rec = _Rec()
+    integration = kind in ('gcacgmm', 'vmfcacgmm')
+    cplx = kind in ('cacgmm', 'cwmm', 'cbmm')
+    wshape = {(-1,): (F, K), (-3,): (K, T), (-3, -1): (K,), (-3, -2, -1): ()}[tuple(wca)] if integration else (F, K, 1)
+
+    def make(B):
+        inp = {'aff': B.real('aff', (F, K, T)), 'weight': B.real('w', wshape, lo=0.0, dist=(0.1, 1.0))}
+        if integration:
+            inp['obs'] = B.cplx('y', (F, T, D))
+            inp['emb'] = B.real('e', (F, T, Edim))
+            inp['A'] = B.real('A', (F, K, T))                 # spatial log-pdf returned by the cACG stub
+            inp['Q'] = B.real('Q', (F, K, T), lo=0.0, dist='pos')
+            inp['G'] = B.real('G', (K, F * T))                # spectral log-pdf returned by the Gaussian / vMF stub
+            inp['s_w'] = B.real('sw', (), lo=0.0, dist=(0.2, 2.0)) if s_w is None else s_w
+            inp['p_w'] = B.real('pw', (), lo=0.0, dist=(0.2, 2.0)) if p_w is None else p_w
+        else:
+            inp['obs'] = B.cplx('y', (F, T, D)) if cplx else B.real('y', (F, T, D))
+            inp['A'] = B.real('A', (F, K, T))
+            inp['Q'] = B.real('Q', (F, K, T), lo=0.0, dist='pos')
+        return inp
+
+    def patches():
+        def aff_stub(*a, **k):
+            rec.calls.append(('affiliation', a, k))
+            return rec.aff
+        return [(mod, 'log_pdf_to_affiliation', aff_stub)]
+
+    class Comp:
+        """stands for the component distribution object"""
+
+        def __init__(self, lp, qf=None, tag='c'):
+            self.lp, self.qf, self.tag = lp, qf, tag
+
+        def _log_pdf(self, y):
+            rec.calls.append((self.tag + '._log_pdf', y))
+            return self.lp, self.qf
+
+        def log_pdf(self, y):
+            rec.calls.append((self.tag + '.log_pdf', y))
+            return self.lp
+
+    def call(inp):
+        rec.calls = []
+        rec.aff = inp['aff']
+        if kind == 'cacgmm':
+            m = mod.CACGMM(weight=inp['weight'], cacg=Comp(inp['A'], inp['Q'], 'cacg'))
+            mask = np.ones((F, K, T), dtype=bool)
+            a1, q1 = m.predict(inp['obs'], return_quadratic_form=True, source_activity_mask=mask)
+            calls1 = list(rec.calls)
+            rec.calls = []
+            yn = mod.normalize_observation(inp['obs'])
+            a2, q2, lp2 = m._predict(yn, source_activity_mask=mask, affiliation_eps=1e-10)
+            return {'a1': a1, 'q1': q1, 'calls1': calls1, 'a2': a2, 'q2': q2, 'lp2': lp2, 'calls2': list(rec.calls), 'mask': mask, 'yn': yn}
+        if integration:
+            comp = Comp(inp['G'], None, 'spectral')
+            kw = dict(weight=inp['weight'], weight_constant_axis=tuple(wca), cacg=Comp(inp['A'], inp['Q'], 'cacg'),
+                      spatial_weight=inp['s_w'], spectral_weight=inp['p_w'])
+            m = mod.GCACGMM(gaussian=comp, **kw) if kind == 'gcacgmm' else mod.VMFCACGMM(vmf=comp, **kw)
+            a2, q2 = m._predict(inp['obs'], inp['emb'], affiliation_eps=1e-10)
+            return {'a2': a2, 'q2': q2, 'calls2': list(rec.calls)}
+        comp = Comp(inp['A'], None, 'comp')
+        if kind == 'cwmm':
+            m = mod.CWMM(weight=inp['weight'], complex_watson=comp)
+        elif kind == 'cbmm':
+            m = mod.CBMM(weight=inp['weight'], complex_bingham=comp)
+        elif kind == 'gmm':
+            m = mod.GMM(weight=inp['weight'], gaussian=comp)
+        else:
+            m = mod.VMFMM(weight=inp['weight'], vmf=comp)
+        a2 = m.predict(inp['obs'])
+        return {'a2': a2, 'calls2': list(rec.calls)}
+
+    def same_cells(sp, a, b):
+        if shape_of(a) != shape_of(b):
+            return sp.FALSE
+        ca, cb = cells(a), cells(b)
+        return sp.all(sp.eq(ca[i], cb[i]) for i in np.ndindex(*shape_of(a)))
+
+    def unit_rows(sp, y, yn_cells, swap, style='max'):
+        """yn = y / max(|y|, tiny) along the last axis (optionally with the last two axes swapped)"""
+        yc = cells(y)
+        fs = []
+        for f in range(F):
+            for t in range(T):
+                n2 = sp.sum(sp.abs2(yc[f, t, d]) if cplx or integration or kind == 'cacgmm' else yc[f, t, d] * yc[f, t, d] for d in range(D))
+                nrm = sp.sqrt(n2)
+                for d in range(D):
+                    z = yn_cells[(f, d, t) if swap else (f, t, d)]
+                    den = sp.max(nrm, TINY64) if style == 'max' else nrm       # 'where': divided by the norm itself
+                    fs.append(sp.implies(sp.gt(n2, 0.0), sp.eq(z * den, yc[f, t, d])))
+        return sp.and_(*fs)
+
+    def ensures(sp, inp, out):
+        calls = out['calls2']
+        affc = [c for c in calls if c[0] == 'affiliation']
+        yield 'posterior-routine-called-once', sp._f(len(affc) == 1)
+        if len(affc) != 1:
+            return
+        _, a, k = affc[0]
+        weight = k.get('weight', a[0] if a else None)
+        log_pdf = k.get('log_pdf', a[1] if len(a) > 1 else None)
+        yield 'result-is-the-posterior-unchanged', sp._f(out['a2'] is inp['aff'])
+        if kind == 'cacgmm':
+            yield 'stored-weight-passed', sp._f(weight is inp['weight'])
+            yield 'component-log-pdf-passed', sp._f(log_pdf is inp['A'])
+            yield 'mask-and-eps-passed', sp._f(k.get('source_activity_mask') is out['mask'] and k.get('affiliation_eps') == 1e-10)
+            yield 'quadratic-form-returned', sp._f(out['q2'] is inp['Q'] and out['lp2'] is inp['A'])
+            # predict(): normalises, swaps D and N, adds the class axis
+            c1 = [c for c in out['calls1'] if c[0] == 'cacg._log_pdf']
+            a1c = [c for c in out['calls1'] if c[0] == 'affiliation']
+            ok = len(c1) == 1 and len(a1c) == 1 and shape_of(c1[0][1]) == (F, 1, D, T)
+            yield 'predict-evaluates-component-on-(F,1,D,T)', sp._f(ok)
+            if ok:
+                z = cells(c1[0][1])[:, 0]
+                yield 'predict-normalises-observation', unit_rows(sp, inp['obs'], z, swap=True, style='where')
+                yield 'predict-passes-mask-and-no-clipping', sp._f(a1c[0][2].get('source_activity_mask') is out['mask']
+                                                                  and a1c[0][2].get('affiliation_eps', 0.) == 0.)
+                yield 'predict-returns-posterior-and-quadratic-form', sp._f(out['a1'] is inp['aff'] and out['q1'] is inp['Q'])
+            return
+        if integration:
+            # weight unsqueezed along exactly the tied axes
+            wexp_shape = {(-1,): (F, K, 1), (-3,): (1, K, T), (-3, -1): (1, K, 1), (-3, -2, -1): (1, 1, 1)}[tuple(wca)]
+            yield 'weight-unsqueezed-along-tied-axes', sp._f(shape_of(weight) == wexp_shape)
+            if shape_of(weight) == wexp_shape:
+                wc, w0 = cells(weight), cells(inp['weight'])
+                flat_w = np.reshape(w0, wexp_shape) if shape_of(inp['weight']) != () else np.full(wexp_shape, w0[()], dtype=object)
+                yield 'weight-values', sp.all(sp.eq(wc[i], flat_w[i]) for i in np.ndindex(*wexp_shape))
+            yield 'joint-log-pdf-shape', sp._f(shape_of(log_pdf) == (F, K, T))
+            if shape_of(log_pdf) == (F, K, T):
+                lc, A, G = cells(log_pdf), cells(inp['A']), cells(inp['G'])
+                for f in range(F):
+                    for k_ in range(K):
+                        for t in range(T):
+                            yield 'joint-log-pdf[%d,%d,%d]' % (f, k_, t), sp.eq(lc[f, k_, t], inp['s_w'] * A[f, k_, t] + inp['p_w'] * G[k_, f * T + t])
+            yield 'eps-passed', sp._f(k.get('affiliation_eps') == 1e-10)
+            yield 'quadratic-form-returned', sp._f(out['q2'] is inp['Q'])
+            sc = [c for c in calls if c[0] == 'spectral.log_pdf']
+            cc = [c for c in calls if c[0] == 'cacg._log_pdf']
+            ok = len(sc) == 1 and len(cc) == 1 and shape_of(sc[0][1]) == (1, F * T, Edim) and shape_of(cc[0][1]) == (F, 1, D, T)
+            yield 'stream-arguments-shapes', sp._f(ok)
+            if ok:
+                e, ec = cells(inp['emb']), cells(sc[0][1])
+                yield 'embedding-stream-flattened-frequency-major', sp.all(sp.eq(ec[0, f * T + t, d], e[f, t, d]) for f in range(F) for t in range(T) for d in range(Edim))
+                y, yc = cells(inp['obs']), cells(cc[0][1])
+                yield 'spatial-stream-swapped', sp.all(sp.eq(yc[f, 0, d, t], y[f, t, d]) for f in range(F) for t in range(T) for d in range(D))
+            return
+        yield 'stored-weight-passed', sp._f(weight is inp['weight'])
+        yield 'component-log-pdf-passed', sp._f(log_pdf is inp['A'])
+        cc = [c for c in calls if c[0] == 'comp.log_pdf']
+        ok = len(cc) == 1 and shape_of(cc[0][1]) == (F, 1, T, D)
+        yield 'component-evaluated-on-(F,1,N,D)', sp._f(ok)
+        if ok:
+            z = cells(cc[0][1])[:, 0]
+            if kind == 'gmm':
+                y = cells(inp['obs'])
+                yield 'observation-passed-unchanged', sp.all(sp.eq(z[f, t, d], y[f, t, d]) for f in range(F) for t in range(T) for d in range(D))
+            else:
+                yield 'observation-normalised', unit_rows(sp, inp['obs'], z, swap=False)
+
+    name = '%s-F%dK%dT%d%s' % (kind, F, K, T, '-wca' + ''.join(map(str, wca)).replace('-', 'm') if integration else '')
+    func = {'cacgmm': 'cacgmm:CACGMM._predict', 'gcacgmm': 'gcacgmm:GCACGMM._predict', 'vmfcacgmm': 'vmfcacgmm:VMFCACGMM._predict',
+            'cwmm': 'cwmm:CWMM.predict', 'cbmm': 'cbmm:CBMM.predict', 'gmm': 'gmm:GMM.predict', 'vmfmm': 'vmfmm:VMFMM.predict'}[kind]
+    return Instance('C01', 'pb_bss.distribution.' + func, name, make, call, ensures, patches=patches, crosscheck=False, timeout=20.0)
+
+
+_base_instances = instances
+
+
+def instances(tier):       # noqa: F811
+    out = _base_instances(tier)
+    for kind in ('cacgmm', 'cwmm', 'cbmm', 'gmm', 'vmfmm'):
+        out.append(estep_instance(kind))
+    for kind in ('gcacgmm', 'vmfcacgmm'):
+        for wca in ((-1,), (-3,), (-3, -1), (-3, -2, -1)):
+            out.append(estep_instance(kind, wca=wca))
+    return out
